@@ -3,7 +3,9 @@
 From Coq Require Import List NArith Bool.
 From JV.lib Require Import Bytes Paths.
 From JV.gen Require Import IncludeName.
-From JV.proofs Require Import IncludeNameProofs PathsProofs.
+From JV.gen Require Import DirectiveTables ScannerTable.
+From JV.model Require Import ScannerSem Core.
+From JV.proofs Require Import IncludeNameProofs PathsProofs IncludeProofs.
 Import ListNotations.
 
 (* On the validator REGENERATED from core/include.go: every accepted name is non-empty,
@@ -12,8 +14,10 @@ Theorem include_name_safe : forall s, validateIncludeFileName s = GOk None -> na
 Proof. exact include_name_safe_lemma. Qed.
 Print Assumptions include_name_safe.
 
-(* The only input on which the Go function panics (s[0] on the empty string); the scanner
-   never produces an empty Parameter lexeme (C14/C17), so the panic is unreachable. *)
+(* The only input on which the Go function panics (s[0] on the empty string).  The scanner never
+   produces an empty Parameter lexeme (C14/C17), but the file name may be written in quotes and
+   is unquoted first, so INCLUDE "" yields the empty name: processInclude refuses it before the
+   validator is called (include_empty_name_rejected / include_no_validator_panic below). *)
 Theorem include_name_total_nonempty : forall s, s <> [] -> exists r, validateIncludeFileName s = GOk r.
 Proof. exact IncludeNameProofs.include_name_total_nonempty. Qed.
 Print Assumptions include_name_total_nonempty.
@@ -28,3 +32,169 @@ Theorem join_confined : forall d name,
   clean_components d ++ filter nonempty (split_byte p_slash name).
 Proof. exact join_components. Qed.
 Print Assumptions join_confined.
+
+(* ---- INCLUDE in the core model (model/Core.v), for EVERY scanner oracle, file system, ban set ----
+   Vocabulary (proofs/IncludeProofs.v):
+     include_param jsc enum banned s x1 path
+                              INCLUDE is not banned, the next lexeme of the current scanner is a
+                              Parameter with text `raw` and path = lib_unquote raw: the file name,
+                              which may be written in quotes (x1 = the scanner after it)
+     include_error s l k      {file of the current scanner; begin of the INCLUDE keyword l; k;
+                              include trace of the (unchanged) scanner stack}
+     stack_names s            the file names of the suspended scanners
+     scan_step / scan_reach   one iteration of scanProject's loops / their closure
+     names_within U s         the current and the suspended scanners carry names in U
+     project_names files root the distinct names among root and the entries of the file system *)
+
+(* an absolute name, a '.' or '..' component, a backslash: rejected at the INCLUDE keyword *)
+Theorem include_bad_name_rejected : forall jsc_len enum_len files banned s l x1 path msg,
+  include_param jsc_len enum_len banned s x1 path ->
+  validateIncludeFileName path = GOk (Some msg) ->
+  process_include jsc_len enum_len files banned s l = CErr (include_error s l CEIncludeBadName).
+Proof. exact include_bad_name_rejected_lemma. Qed.
+Print Assumptions include_bad_name_rejected.
+
+(* the empty name (INCLUDE "": the name may be quoted) is refused like a missing parameter ... *)
+Theorem include_empty_name_rejected : forall jsc_len enum_len files banned s l x1,
+  include_param jsc_len enum_len banned s x1 [] ->
+  process_include jsc_len enum_len files banned s l = CErr (include_error s l CEIncludeNoParam).
+Proof. exact include_empty_name_rejected_lemma. Qed.
+Print Assumptions include_empty_name_rejected.
+
+(* ... so validateIncludeFileName is only ever called on a non-empty name, where it is total
+   (include_name_total_nonempty): processInclude never panics in the validator; a panic can only be
+   the scanner's (Next) or that of taking the text of the parameter lexeme *)
+Theorem include_no_validator_panic : forall jsc_len enum_len files banned s l w,
+  process_include jsc_len enum_len files banned s l = CPanic w ->
+  sc_next jsc_len enum_len (cs_sc s) = Panic w \/
+  exists x1 pl, sc_next jsc_len enum_len (cs_sc s) = Ok (x1, Some pl) /\ value_of x1 pl = CPanic w.
+Proof. exact include_no_validator_panic_lemma. Qed.
+Print Assumptions include_no_validator_panic.
+
+Theorem include_missing_rejected : forall jsc_len enum_len files banned s l x1 path,
+  include_param jsc_len enum_len banned s x1 path ->
+  validateIncludeFileName path = GOk None ->
+  fs_stat files (join2 (dir (sc_file (cs_sc s))) path) = None ->
+  process_include jsc_len enum_len files banned s l = CErr (include_error s l CEIncludeNotExist).
+Proof. exact include_missing_rejected_lemma. Qed.
+Print Assumptions include_missing_rejected.
+
+Theorem include_directory_rejected : forall jsc_len enum_len files banned s l x1 path,
+  include_param jsc_len enum_len banned s x1 path ->
+  validateIncludeFileName path = GOk None ->
+  fs_stat files (join2 (dir (sc_file (cs_sc s))) path) = Some FDir ->
+  process_include jsc_len enum_len files banned s l = CErr (include_error s l CEIncludeIsDir).
+Proof. exact include_directory_rejected_lemma. Qed.
+Print Assumptions include_directory_rejected.
+
+(* a JSIGHT keyword while a scanner is suspended (= inside an included file) is never accepted:
+   'not allowed in included file' at the keyword, unless the directive read before it was
+   already misplaced (then that error, at that directive, comes first) *)
+Theorem jsight_in_include_rejected : forall banned s l,
+  cs_stack s <> [] ->
+  exists e, process_keyword banned s l (kind_keyword KJsight) = CErr e /\
+            (flush_cur s = CErr e \/ e = include_error s l CEJsightInInclude).
+Proof. exact jsight_in_include_rejected_lemma. Qed.
+Print Assumptions jsight_in_include_rejected.
+
+(* Stack.Push refuses a scanner whose file name is already on the stack *)
+Theorem include_cycle_rejected : forall jsc_len enum_len files banned s l x1 path content,
+  include_param jsc_len enum_len banned s x1 path ->
+  validateIncludeFileName path = GOk None ->
+  fs_stat files (join2 (dir (sc_file (cs_sc s))) path) = Some (FFile content) ->
+  In (sc_file (cs_sc s)) (stack_names s) ->
+  process_include jsc_len enum_len files banned s l = CErr (include_error s l CEIncludeRecursion).
+Proof. exact include_cycle_rejected_lemma. Qed.
+Print Assumptions include_cycle_rejected.
+
+(* a refused INCLUDE ends the scan with that diagnostic *)
+Theorem include_rejection_ends_scan : forall jsc_len enum_len files banned f s x1 l k,
+  sc_next jsc_len enum_len (cs_sc s) = Ok (x1, Some l) ->
+  lexkind_eqb (lk l) LKeyword = true ->
+  value_of x1 l = COk (kind_keyword KInclude) ->
+  process_include jsc_len enum_len files banned (upd_sc s x1) l = CErr (include_error (upd_sc s x1) l k) ->
+  scan_project jsc_len enum_len files banned (S f) s = CErr (include_error s l k).
+Proof. exact include_rejection_stops_scan. Qed.
+Print Assumptions include_rejection_ends_scan.
+
+(* no file name is ever twice on the scanner stack *)
+Theorem include_stack_nodup : forall jsc_len enum_len files banned s s',
+  NoDup (stack_names s) -> scan_step jsc_len enum_len files banned s s' -> NoDup (stack_names s').
+Proof. exact scan_step_nodup. Qed.
+Print Assumptions include_stack_nodup.
+
+(* so include chains are never deeper than the number of distinct file names of the project *)
+Theorem include_depth_bounded : forall jsc_len enum_len files banned root s s',
+  NoDup (stack_names s) -> names_within (root :: map fst files) s ->
+  scan_reach jsc_len enum_len files banned s s' ->
+  NoDup (stack_names s') /\
+  (List.length (cs_stack s') <= List.length (project_names files root))%nat.
+Proof. exact include_depth_bounded_lemma. Qed.
+Print Assumptions include_depth_bounded.
+
+(* and at that depth every INCLUDE of a regular file is refused as a recursion: a cyclic chain is
+   cut after at most that many levels *)
+Theorem include_full_stack_rejected : forall jsc_len enum_len files banned root s l x1 path content,
+  NoDup (stack_names s) -> names_within (root :: map fst files) s ->
+  (List.length (project_names files root) <= List.length (cs_stack s))%nat ->
+  include_param jsc_len enum_len banned s x1 path ->
+  validateIncludeFileName path = GOk None ->
+  fs_stat files (join2 (dir (sc_file (cs_sc s))) path) = Some (FFile content) ->
+  process_include jsc_len enum_len files banned s l = CErr (include_error s l CEIncludeRecursion).
+Proof. exact include_full_stack_rejected_lemma. Qed.
+Print Assumptions include_full_stack_rejected.
+
+(* the answers of the scan do not depend on the fuel *)
+Theorem scan_project_fuel_irrelevant : forall jsc_len enum_len files banned f f' s r,
+  (f <= f')%nat -> scan_project jsc_len enum_len files banned f s = r -> r <> CFuel ->
+  scan_project jsc_len enum_len files banned f' s = r.
+Proof. exact scan_project_fuel_le. Qed.
+Print Assumptions scan_project_fuel_irrelevant.
+
+(* ... also of the whole scan with the fuel as a parameter (scan_fuel_project, the fuel of
+   scan_forest, is too small for projects that include a file many times: see
+   IncludeProofs.scan_fuel_project_insufficient) *)
+Theorem scan_forest_with_fuel_irrelevant : forall jsc_len enum_len files banned root f f' r,
+  (f <= f')%nat -> scan_forest_with f jsc_len enum_len files banned root = r -> r <> CFuel ->
+  scan_forest_with f' jsc_len enum_len files banned root = r.
+Proof. exact scan_forest_with_fuel_le. Qed.
+Print Assumptions scan_forest_with_fuel_irrelevant.
+
+(* a successful INCLUDE opens the regular file at Clean(Dir(includer) + "/" + name) for a name the
+   validator accepts (so name_safe); unless the name is "." or ".." (directories) its cleaned
+   components are those of the includer's directory followed by the components of the name *)
+Theorem included_path_confined : forall jsc_len enum_len files banned s l s',
+  process_include jsc_len enum_len files banned s l = COk s' ->
+  exists path content,
+    validateIncludeFileName path = GOk None /\ name_safe path /\
+    sc_file (cs_sc s') = clean (dir (sc_file (cs_sc s)) ++ p_slash :: path) /\
+    fs_stat files (sc_file (cs_sc s')) = Some (FFile content) /\
+    sc_data (cs_sc s') = content /\
+    ((path = p_dot /\ clean_components (dir (sc_file (cs_sc s)) ++ p_slash :: path) = clean_components (dir (sc_file (cs_sc s)))) \/
+     path = p_dotdot \/
+     ((forall c, In c (split_byte p_slash path) -> plain c) /\
+      clean_components (dir (sc_file (cs_sc s)) ++ p_slash :: path) =
+      clean_components (dir (sc_file (cs_sc s))) ++ filter nonempty (split_byte p_slash path))) /\
+    exists x1 : scn, sc_file x1 = sc_file (cs_sc s) /\ cs_stack s' = (x1, lb l) :: cs_stack s.
+Proof. exact included_path_confined_lemma. Qed.
+Print Assumptions included_path_confined.
+
+(* processInclude asks the file system ONE question: the entry at Join(Dir(includer), name) for a
+   validated name; two file systems that answer it alike give the same result *)
+Theorem include_single_lookup : forall jsc_len enum_len banned files files' s l,
+  (forall path, validateIncludeFileName path = GOk None ->
+     fs_stat files (join2 (dir (sc_file (cs_sc s))) path) = fs_stat files' (join2 (dir (sc_file (cs_sc s))) path)) ->
+  process_include jsc_len enum_len files banned s l = process_include jsc_len enum_len files' banned s l.
+Proof. exact process_include_fs_access. Qed.
+Print Assumptions include_single_lookup.
+
+(* no file outside is ever opened: the whole scan depends on the file system only through the
+   entries at names reachable from the root by Join(Dir(.), validated name) *)
+Theorem scan_reads_only_reachable_names : forall jsc_len enum_len banned files files' root,
+  (forall m path, include_reachable root m -> validateIncludeFileName path = GOk None ->
+     fs_stat files (join2 (dir m) path) = fs_stat files' (join2 (dir m) path)) ->
+  forall fuel content,
+  scan_project jsc_len enum_len files banned fuel (init_state root content) =
+  scan_project jsc_len enum_len files' banned fuel (init_state root content).
+Proof. exact scan_root_fs_confined_lemma. Qed.
+Print Assumptions scan_reads_only_reachable_names.
